@@ -50,6 +50,21 @@ pub fn generate_c04(opts: &Opts, sink: &mut CaseSink) {
     let mut rng = Rng::new(opts.seed);
     let n = (if opts.thorough { 400 } else { 36 }) / opts.scale;
     let watchdog = Duration::from_secs(90);
+    // iterate and expansion. (1) known finding F9 exhibited: 24 outputs per pulled element,
+    // one element per message: more than the feedback cycle holds -> hang with `Single`,
+    // fine with large batches. (2) 64 outputs per element in batches of 8 (8 messages per
+    // element: within the cycle's capacity) but 64 messages per input batch: must terminate
+    // (the head keeps draining the feedback channel while it forwards an input batch).
+    {
+        let src = Pipe::Src(true, big_data(&mut rng, 6));
+        let p = Pipe::Iterate(Box::new(src), 2, 1_000_000_000_000, vec![Op1::FlatRep(8), Op1::FlatRep(3)], false);
+        emit(sink, &p, &[(Deploy::Local(1), Mode::Fixed(1024)), (Deploy::Local(1), Mode::Single)], Duration::from_secs(20));
+        for (size, par, mode) in [(40u64, 1u64, Mode::Fixed(8)), (64, 1, Mode::Fixed(8)), (48, 1, Mode::Fixed(16))] {
+            let src = Pipe::Src(true, big_data(&mut rng, size));
+            let p = Pipe::Iterate(Box::new(src), 1, 1_000_000_000_000, vec![Op1::FlatRep(8), Op1::FlatRep(8)], false);
+            emit(sink, &p, &[(Deploy::Local(1), Mode::Fixed(1024)), (Deploy::Local(par), mode)], Duration::from_secs(30));
+        }
+    }
     for i in 0..n {
         // shapes that stress end-of-stream accounting and back-pressure
         let size = match i % 4 { 0 => 0, 1 => rng.range(1, 3) as u64, _ => rng.range(120, 400) as u64 };
@@ -87,6 +102,31 @@ pub fn generate_c04(opts: &Opts, sink: &mut CaseSink) {
 pub const RULE_C04: &str = "the engineered two-host hash join of known finding F13 (2 + 20 cores, fixed(2) batches; thorough: also its control without the early flush and a 2 + 14 core layout), then whole jobs on the real engine: empty and tiny inputs, inputs of 120..400 elements with batch size 1/3 (more than the total channel capacity: real back-pressure), split diamonds closed by merge and by outer join, broadcast joins, merges with an empty side, replay loops with internal shuffles, plus random pipelines; local 1..8 and 2..3-host deployments; watchdog 90 s; for every acyclic pipeline and 40 (thorough 300) further random ones the execution graph derived by the real scheduler on local(1..8), checked against dag_okb (premise of C04_dag_*). A run counts as good only if every host returned, exactly one sink handle held a result and the result is complete. Non-trivial: >=2 input elements and >=2 runs; distinct = distinct case terms";
 
 // ---------------------------------------------------------------- C10
+/// Loops with a side input: a join inside the loop body whose loop side changes from round to
+/// round (it depends on the loop state), every join variant and local algorithm.
+pub fn side_input_cases(rng: &mut Rng, sink: &mut CaseSink, n: usize, watchdog: Duration) {
+    for i in 0..n {
+        // few elements and many keys: a key present on the loop side in one round is often
+        // absent in the next, while the side input still has it
+        let size = *rng.pick(&[1u64, 2, 3, 5, 12]);
+        let src = Pipe::Src(true, big_data(rng, size));
+        let js = match pipe::random_join_side(rng) {
+            Op1::JoinSide(_, _, side) if i % 2 == 0 => Op1::JoinSide(JVar::Outer, JLocal::SortMerge, side),
+            o => o,
+        };
+        let mut body = vec![Op1::AddState, Op1::FilterNe(rng.range(2, 4)), Op1::SetKey(rng.range(5, 9)), js];
+        if i % 3 == 0 { body.insert(1, Op1::Shuffle); }
+        if i % 4 == 1 { body.push(Op1::MapAdd(1)); }
+        let p = Pipe::Replay(Box::new(src), rng.range(2, 5), 1_000_000_000_000, body);
+        let configs = vec![
+            (Deploy::Local(1), Mode::Fixed(1024)),
+            (Deploy::Local(rng.range(2, 6) as u64), pipe::random_mode(rng)),
+            (Deploy::Remote(vec![1, 2]), pipe::random_mode(rng)),
+        ];
+        emit(sink, &p, &configs, watchdog);
+    }
+}
+
 pub fn generate_c10(opts: &Opts, sink: &mut CaseSink) {
     let mut rng = Rng::new(opts.seed);
     let n = (if opts.thorough { 600 } else { 60 }) / opts.scale;
@@ -114,6 +154,7 @@ pub fn generate_c10(opts: &Opts, sink: &mut CaseSink) {
         ];
         emit(sink, &p, &configs, watchdog);
     }
+    side_input_cases(&mut rng, sink, if opts.thorough { 150 } else { 24 }, watchdog);
     // nested loops whose inner body reads the INNER state: they must restart from the initial
     // state in every outer round, on every replica
     for i in 0..(if opts.thorough { 40 } else { 6 }) {
@@ -147,19 +188,28 @@ pub fn generate_c10(opts: &Opts, sink: &mut CaseSink) {
         emit(sink, &p, &configs, watchdog);
     }
 }
-pub const RULE_C10: &str = "replay (75%) and iterate (25%) loops on the real engine: bodies that add the loop state to every value plus random maps / filters / flat_maps / shuffles / keyed aggregations and, for replay, nested replay loops (half of them reading their own loop state in the inner body — plus dedicated cases of that shape with 2..4 outer rounds —, a quarter of them reading the enclosing loop's state in the inner body, plus dedicated cases of that shape run six times on 3 hosts); bounds 0..6, stop conditions on the state (30 .. never), inputs of 0..120 elements; each under local(1), local(2..8) and a 2..3-host deployment with random batch modes. Non-trivial: >=2 input elements; distinct = distinct case terms";
+pub const RULE_C10: &str = "replay (75%) and iterate (25%) loops on the real engine: bodies that add the loop state to every value plus random maps / filters / flat_maps / shuffles / keyed aggregations and, for replay, nested replay loops (half of them reading their own loop state in the inner body — plus dedicated cases of that shape with 2..4 outer rounds —, a quarter of them reading the enclosing loop's state in the inner body, plus dedicated cases of that shape run six times on 3 hosts); bounds 0..6, stop conditions on the state (30 .. never), joins with a side input defined outside the loop (all variants, hash and sort-merge) whose loop side depends on the state; inputs of 0..120 elements; each under local(1), local(2..8) and a 2..3-host deployment with random batch modes. Non-trivial: >=2 input elements; distinct = distinct case terms";
 
 // ---------------------------------------------------------------- C18
-fn measure_delay(depth: usize, delay_ms: u64) -> (u64, bool) {
+/// shape 0: linear pipeline; 1: the channel source is the LEFT input of a merge whose right
+/// input (an empty bounded source) has finished; 2: the same with the sides swapped
+fn measure_delay(depth: usize, delay_ms: u64, shape: u64) -> (u64, bool) {
     let (tx, source) = ChannelSource::<i64>::new(8);
     let env = StreamContext::new(RuntimeConfig::local(2).unwrap());
-    let mut s = crate::dynop::erase(env.stream(source).batch_mode(BatchMode::adaptive(1024, Duration::from_millis(delay_ms))));
+    let bm = BatchMode::adaptive(1024, Duration::from_millis(delay_ms));
+    let live = env.stream(source).batch_mode(bm);
+    let mut s = match shape {
+        0 => crate::dynop::erase(live),
+        1 => crate::dynop::erase(live.merge(env.stream_iter(0..0i64).batch_mode(bm))),
+        _ => crate::dynop::erase(env.stream_iter(0..0i64).batch_mode(bm).merge(live)),
+    };
     for _ in 0..depth {
         s = crate::dynop::erase(s.shuffle().map(|x: i64| x + 1));
     }
     let rx = s.collect_channel();
     let handle = std::thread::spawn(move || env.execute_blocking());
-    std::thread::sleep(Duration::from_millis(30)); // let the workers start and go idle
+    // let the workers start; the element is sent well within the first max_delay when that is long
+    std::thread::sleep(Duration::from_millis(30));
     let t0 = Instant::now();
     tx.send(7).unwrap();
     // no further input: the element must still come out
@@ -193,9 +243,9 @@ pub fn generate_c18(opts: &Opts, sink: &mut CaseSink) {
             }
         }
         if rejected { sink.count("plan_rejected_by_api"); continue; }
-        let runs: Vec<String> = tmp_runs.iter().map(|o| match o {
+        let runs: Vec<String> = tmp_runs.iter().zip(configs.iter()).map(|(o, (dd, m))| match o {
             pipe::Outcome::Done(v) => format!("(C01.ODone [{}])", v.iter().map(|(k, x)| format!("({}, {})", if *k < 0 { format!("({k})") } else { k.to_string() }, if *x < 0 { format!("({x})") } else { x.to_string() })).collect::<Vec<_>>().join("; ")),
-            pipe::Outcome::Hang => "C01.OHang".into(),
+            pipe::Outcome::Hang => format!("(C01.OHangB {} {})", match m { Mode::Single => 1, Mode::Fixed(n) => *n, Mode::Adaptive(n, _) => *n }, match dd { Deploy::Local(p) => *p, Deploy::Remote(c) => c.iter().sum() }),
             _ => "C01.OPanic".into(),
         }).collect();
         let _ = before;
@@ -219,18 +269,22 @@ pub fn generate_c18(opts: &Opts, sink: &mut CaseSink) {
                   script.iter().filter(|e| matches!(e, E::Item(_) | E::Timestamped(_, _))).count() >= 3);
     }
     // (c) adaptive batching: an element sent alone arrives although no further input comes
-    let n = if opts.thorough { 30 } else { 6 };
+    let n = if opts.thorough { 36 } else { 9 };
     for i in 0..n {
         let depth = 1 + (i % 4) as usize;
-        let delay = *rng.pick(&[5u64, 20, 50]);
-        let (elapsed, delivered) = measure_delay(depth, delay);
+        // with the long delay the element arrives before the first max_delay has elapsed, so no
+        // batcher flushes it on its own: only the idle signal of the block inputs gets it out
+        let delay = if i < 3 { 300 } else { *rng.pick(&[5u64, 20, 50, 300]) };
+        let shape = (i % 3) as u64;
+        let (elapsed, delivered) = measure_delay(depth, delay, shape);
+        let shape_name = ["linear", "merge, right input finished", "merge, left input finished"][shape as usize];
         let bound = delay * 20 * (depth as u64 + 1) + 2000;
         sink.count("adaptive_delay");
         sink.push(format!("(CDelay {} {} {} {} {})", depth, delay, elapsed, bound, delivered),
-                  json!({"kind": "adaptive delay", "depth": depth, "max_delay_ms": delay, "observed_ms": elapsed, "bound_ms": bound, "delivered": delivered}), true);
+                  json!({"kind": "adaptive delay", "shape": shape_name, "depth": depth, "max_delay_ms": delay, "observed_ms": elapsed, "bound_ms": bound, "delivered": delivered}), true);
     }
 }
-pub const RULE_C18: &str = "(a) random pipelines, each under single / fixed(1) / fixed(7) / fixed(1024) / adaptive(1024,50ms) / adaptive(3,2ms) on one deployment: all six results equal the sequential meaning; (b) the real End operator with every strategy and batch mode over multi-round scripts with FlushBatch: every control element and every data element has arrived once its round ended; (c) a channel source with adaptive(1024, 5..50 ms) through 1..4 block boundaries: one element, then silence; it must reach the sink within 20 x delay x (depth+1) + 2 s. Non-trivial: >=2 input elements / >=3 data elements / every timing case; distinct = distinct case terms";
+pub const RULE_C18: &str = "(a) random pipelines, each under single / fixed(1) / fixed(7) / fixed(1024) / adaptive(1024,50ms) / adaptive(3,2ms) on one deployment: all six results equal the sequential meaning; (b) the real End operator with every strategy and batch mode over multi-round scripts with FlushBatch: every control element and every data element has arrived once its round ended; (c) a channel source with adaptive(1024, 5..300 ms) — alone, or as the left / right input of a merge whose other input has finished — through 1..4 block boundaries: one element (sent before the first max_delay has elapsed when that is 300 ms), then silence; it must reach the sink within 20 x delay x (depth+1) + 2 s. Non-trivial: >=2 input elements / >=3 data elements / every timing case; distinct = distinct case terms";
 
 // ---------------------------------------------------------------- C20
 fn strip_repl(p: Pipe) -> Pipe {
